@@ -1497,7 +1497,7 @@ theorem ra_into_next_split (hd : dispose_chunk_Spec) {s : St} (hi : SInv s) {p z
       by omega, by omega, u.hg, inSeg_iff.2 hge, inSeg_iff.2 hgy, by simp only; omega, rfl⟩
   obtain ⟨i2, sp1⟩ := ra_split_core i1 u1 hnb16 hnb (by omega) (by omega) (H := h2)
     (by rw [r2]; exact ⟨rfl, rfl, rfl, rfl, rfl, rfl, rfl⟩)
-  obtain ⟨r1, r2⟩ := ra_split_dispose hd i2 (ra_splitU_of_resizedTo rt1 sp1 (by omega)) (by omega) e3
+  obtain ⟨r1, r2⟩ := ra_split_dispose hd (s := s) i2 (ra_splitU_of_resizedTo rt1 sp1 (by omega)) (by omega) e3
   exact ⟨r1, r2.resized (Nat.le_refl nb)⟩
 
 /-- `set_inuse` changes the header table only -/
@@ -1653,5 +1653,43 @@ theorem ra_try_realloc_chunk_spec (hd : dispose_chunk_Spec) : try_realloc_chunk_
               exact ra_into_next_split hd hi ga hcd hnb16 (by omega) (by omega) (by omega) e0' e1 e2 e3
         · msimp at hh
           cases hh
+
+/-! ## H. non-vacuity -/
+
+/-- `try_realloc_chunk h p nb` succeeds in place and the branch tag `tag` was recorded -/
+def ra_branchIs (h : Heap) (p nb : Nat) (tag : String) : Bool :=
+  match try_realloc_chunk { h with tr := [] } p nb with
+  | .ok (some h') => h'.tr.contains tag
+  | _ => false
+
+def ra_userB (s : St) (a z : Nat) : Bool :=
+  match findEnt s.h.ents a with
+  | some e => e.cin && decide (e.size = z) && decide (z ≠ 8) && !isRecord s.segs e
+  | none => false
+
+theorem ra_user_of_check {s : St} {a z : Nat} (h : ra_userB s a z = true) : User s a z := by
+  unfold ra_userB at h
+  split at h
+  · rename_i e he
+    simp only [Bool.and_eq_true, decide_eq_true_eq, Bool.not_eq_true'] at h
+    exact ⟨e, he, h.1.1.1, h.1.1.2, h.1.2, h.2⟩
+  · cases h
+
+set_option maxRecDepth 40000 in
+/-- non-vacuity: the hypotheses of `try_realloc_chunk_Spec` hold on reachable states on which each of the
+seven successful branches is taken -/
+example : Inv smallState ∧ User smallState.st 1048576 112 ∧ User smallState.st 1048800 112 ∧
+    ra_branchIs smallState.st.h 1048576 48 "realloc-shrink-split" = true ∧
+    ra_branchIs smallState.st.h 1048576 96 "realloc-shrink-keep" = true ∧
+    ra_branchIs smallState.st.h 1048576 128 "realloc-into-next-split" = true ∧
+    ra_branchIs smallState.st.h 1048576 208 "realloc-into-next-exhaust" = true ∧
+    ra_branchIs smallState.st.h 1048800 256 "realloc-into-top" = true ∧
+    Inv pilotState ∧ User pilotState.st 1048688 32 ∧
+    ra_branchIs pilotState.st.h 1048688 48 "realloc-into-dv-split" = true ∧
+    ra_branchIs pilotState.st.h 1048688 96 "realloc-into-dv-exhaust" = true :=
+  ⟨gl_inv_of_check (by decide) (by decide) (by decide) (by decide) (by decide) (by decide),
+    ra_user_of_check (by decide), ra_user_of_check (by decide), by decide, by decide, by decide, by decide, by decide,
+    gl_inv_of_check (by decide) (by decide) (by decide) (by decide) (by decide) (by decide),
+    ra_user_of_check (by decide), by decide, by decide⟩
 
 end TinyVerif.Dl
